@@ -7,6 +7,7 @@ package encoder
 import (
 	"bytes"
 	"fmt"
+	"sort"
 
 	"github.com/ozanh/ugo"
 	"github.com/ozanh/ugo/encoder/opv1"
@@ -55,23 +56,46 @@ func convCompFuncV1ToV2(cf *ugo.CompiledFunction, opWidth []int) error {
 		return nil
 	}
 
-	var hasJump bool
-	for i := 0; !hasJump && i < len(cf.Instructions); {
+	// Widening the operands of jump-class instructions moves every later
+	// instruction, so jump targets must be relocated. ends[k] is the v1 offset
+	// just after the k-th widened instruction and grown[k] is the total number
+	// of bytes inserted up to and including it.
+	var ends, grown []int
+	for i := 0; i < len(cf.Instructions); {
 		op := cf.Instructions[i]
+		if int(op) >= len(opWidth) {
+			return fmt.Errorf("invalid opcode %d at %d", op, i)
+		}
+
+		w := opWidth[op]
+		if i+1+w > len(cf.Instructions) {
+			return fmt.Errorf("truncated instruction at %d", i)
+		}
 
 		switch op {
 		case
 			opv1.OpJump, opv1.OpJumpFalsy, opv1.OpAndJump, opv1.OpOrJump, opv1.OpSetupTry:
-			hasJump = true
-			continue
+			total := 2 * len(opv1.OpcodeOperands[op])
+			if len(grown) > 0 {
+				total += grown[len(grown)-1]
+			}
+			ends = append(ends, i+1+w)
+			grown = append(grown, total)
 		}
-
-		w := opWidth[op]
 		i += 1 + w
 	}
 
-	if !hasJump {
+	if len(ends) == 0 {
 		return nil
+	}
+
+	relocate := func(target int) int {
+		// bytes inserted by the widened instructions ending at or before target
+		k := sort.SearchInts(ends, target+1)
+		if k == 0 {
+			return target
+		}
+		return target + grown[k-1]
 	}
 
 	var newInsts []byte
@@ -96,6 +120,9 @@ func convCompFuncV1ToV2(cf *ugo.CompiledFunction, opWidth []int) error {
 				cf.Instructions[i+1:],
 				operands[:0],
 			)
+			for k := range operands {
+				operands[k] = relocate(operands[k])
+			}
 
 			var err error
 			instBuf, err = ugo.MakeInstruction(instBuf[:0], op, operands...)
